@@ -25,6 +25,7 @@ import (
 	"github.com/sirupsen/logrus"
 
 	"tkestack.io/kvass/pkg/discovery"
+	"tkestack.io/kvass/pkg/explore"
 	"tkestack.io/kvass/pkg/prom"
 	kscrape "tkestack.io/kvass/pkg/scrape"
 	"tkestack.io/kvass/pkg/sidecar"
@@ -127,6 +128,36 @@ func Rediscover(d *discovery.TargetsDiscovery, round map[string][]*targetgroup.G
 	ch <- round
 	<-d.ActiveTargetsChan()
 	return d.ActiveTargetsByHash()
+}
+
+// ExploreAll does what the coordinator's explorer does with every active target between discovery rounds:
+// a scrape manager and an explorer that were given the SAME *ConfigInfo as the discovery (cmd/kvass wires them
+// so), the explorer told about the targets, and one probe per target. The probe function is replaced (no
+// network); everything before it - job lookup, building the target's URL from the job's settings - is real.
+func ExploreAll(info *prom.ConfigInfo, d *discovery.TargetsDiscovery) []string {
+	sm := kscrape.New(true, quiet)
+	if err := sm.ApplyConfig(info); err != nil {
+		panic(err)
+	}
+	e := explore.New(sm, prometheus.NewRegistry(), quiet)
+	var urls []string
+	e.VerifSetProbe(0, func(l logrus.FieldLogger, ji *kscrape.JobInfo, u string) (*kscrape.StatisticsSeriesResult, error) {
+		urls = append(urls, u)
+		return kscrape.NewStatisticsSeriesResult(), nil
+	})
+	_ = e.ApplyConfig(info)
+	e.UpdateTargets(d.ActiveTargets())
+	act := d.ActiveTargetsByHash()
+	hs := make([]uint64, 0, len(act))
+	for h := range act {
+		hs = append(hs, h)
+	}
+	sort.Slice(hs, func(i, j int) bool { return hs[i] < hs[j] })
+	for _, h := range hs {
+		_ = e.VerifProbeOnce(h)
+	}
+	sort.Strings(urls)
+	return urls
 }
 
 // Ship sends targets through JSON as the coordinator's POST does.
